@@ -111,16 +111,28 @@ def make_hook(loop_specs, first_match=True):
     return hook
 
 
+def _is_field(key):
+    """("field", obj, name): an array-valued attribute that the body REBINDS (e.g. through a property setter that stores
+    value.astype(int)); its state is the contents of whatever array the attribute holds, the shape stays the entry shape"""
+    return isinstance(key, tuple) and len(key) == 3 and key[0] == "field"
+
+
 def _set_state(interp, st):
+    from .values import new_array
+
     env = interp.stack[-1].env
     for key, val in st.items():
         if isinstance(key, str):
             env[key] = val
+        elif _is_field(key):
+            _, obj, name = key
+            obj.fields[name] = new_array(tuple(obj.fields[name].shape), val, name.lstrip("_") + "@k")
         else:  # a buffer: key is an NDArr view whose contents are defined by val(*local idx)
             key.assign_from(val)
 
 
-def _check_state(interp, label, st):
+def _check_state(interp, label, st, shapes=None):
+    shapes = shapes or {}
     env = interp.stack[-1].env
     path = interp.path
     for key, val in st.items():
@@ -129,6 +141,17 @@ def _check_state(interp, label, st):
             E.same_identity = lambda *a, **k: None
             cur = env.get(key)
             E.eq(key, cur, val)
+        elif _is_field(key):
+            _, obj, name = key
+            cur = obj.fields.get(name)
+            if not isinstance(cur, NDArr) or cur.ndim != len(shapes[key]):
+                path.engine.record(f"{label}:post.{name}.is-array", "refuted", 0, "attribute no longer holds an array of the entry rank", None)
+                continue
+            for d, (a, b) in enumerate(zip(cur.shape, shapes[key])):
+                path.oblige(f"{label}:post.{name}.shape{d}", to_z3(a) == to_z3(b))
+            idx = [path.fresh("lk") for _ in cur.shape]
+            rng = [z3.And(i >= 0, i < to_z3(s_)) for i, s_ in zip(idx, shapes[key])]
+            path.oblige(f"{label}:post.{name}", as_int_term(cur.get(*idx)) == as_int_term(val(*idx)), extra=rng)
         else:
             idx = [path.fresh("lk") for _ in key.shape]
             rng = [z3.And(i >= 0, i < to_z3(s)) for i, s in zip(idx, key.shape)]
@@ -152,6 +175,7 @@ def run_loop(interp, node, it, spec: SeqLoop):
     # ---- frame of variables
     st0 = spec.state(interp, z3.IntVal(0), entry)
     carried = {k for k in st0 if isinstance(k, str)}
+    fshapes = {k: tuple(k[1].fields[k[2]].shape) for k in st0 if _is_field(k)}
     tnames = assigned_names([ast.Expr(value=_as_load(node.target))]) | {n.id for n in ast.walk(node.target) if isinstance(n, ast.Name)}
     written = assigned_names(node.body)
     extra = written - carried - tnames - spec.locals
@@ -164,7 +188,7 @@ def run_loop(interp, node, it, spec: SeqLoop):
     if spec.axioms:
         for a in spec.axioms(interp, None, entry):
             path.assume(a)
-    _check_state(interp, tag + ".init", st0)
+    _check_state(interp, tag + ".init", st0, fshapes)
 
     # ---- preservation for an arbitrary iteration k
     saved_pc = len(path.pc)
@@ -176,6 +200,7 @@ def run_loop(interp, node, it, spec: SeqLoop):
         for a in spec.axioms(interp, k, entry):
             path.assume(a)
     _set_state(interp, spec.state(interp, k, entry))
+    field_stores = {id(kk[1].fields[kk[2]].store) for kk in st0 if _is_field(kk)}  # the arrays installed for iteration k
     if spec.element:
         elem = spec.element(interp, k, entry, it)
     elif isinstance(it, (NDArr, SymList)):
@@ -187,6 +212,9 @@ def run_loop(interp, node, it, spec: SeqLoop):
     interp.assign(node.target, elem)
     n_writes = len(interp.writes)
     n_store_entry = Store._n
+    from .values import Obj as _Obj
+
+    n_obj_entry = _Obj._n
     broke = False
     try:
         interp.exec_block(node.body)
@@ -201,12 +229,18 @@ def run_loop(interp, node, it, spec: SeqLoop):
     if spec.after_body:
         spec.after_body(interp, k, entry)
     # buffers written by the body must be carried buffers
-    carried_stores = {id(kv.store) for kv in st0 if not isinstance(kv, str)}
+    carried_stores = {id(kv.store) for kv in st0 if not isinstance(kv, str) and not _is_field(kv)} | field_stores
     alien = [w for w in interp.writes[n_writes:] if isinstance(w[0], Store) and id(w[0]) not in carried_stores
              and w[0].id <= n_store_entry]
     path.engine.record(f"{tag}.frame.buffers", "discharged" if not alien else "refuted", 0,
                        "" if not alien else "loop body writes a buffer the loop contract does not cover", None)
-    _check_state(interp, tag + ".preserve", spec.state(interp, k + 1, entry))
+    declared = {(id(kk[1]), kk[2]) for kk in st0 if _is_field(kk)}
+    alien_f = sorted({str(w[1]) for w in interp.writes[n_writes:] if isinstance(w[0], _Obj) and w[0].serial <= n_obj_entry
+                      and (id(w[0]), w[1]) not in declared})
+    if fshapes or alien_f:
+        path.engine.record(f"{tag}.frame.attributes", "discharged" if not alien_f else "refuted", 0,
+                           "" if not alien_f else f"loop body rebinds attributes {alien_f} which the loop contract does not cover", None)
+    _check_state(interp, tag + ".preserve", spec.state(interp, k + 1, entry), fshapes)
     # ---- leave the arbitrary iteration: drop its assumptions, continue from state(N)
     del path.pc[saved_pc:]
     fr.env.clear()
@@ -235,7 +269,7 @@ def _as_load(t):
 
 
 def _snapshot_stores(st0):
-    return [k.store for k in st0 if not isinstance(k, str)]
+    return [k.store for k in st0 if not isinstance(k, str) and not _is_field(k)]
 
 
 def _max_store_id(stores, entry):
